@@ -21,6 +21,8 @@ import extract_c02p as extract_c02
 def run(ctx: core.Run):
     t0 = time.time()
     summary = ctx.regenerate(extract_c02.gen_formats)
+    guards = ctx.regenerate(extract_c02.gen_guards)
+    ctx.extra["optional_part_tests"] = {"rows": guards["rows"]} if guards else None
     ctx.extra["c02_payload_tables"] = dict(summary) if isinstance(summary, dict) else str(summary)
     # the tables the payload models are instantiated with (`_TERMS`: `terms_have_four_bytes`; `Unit` / `Enum`; registries,
     # enum members, validator options, every utils call of every class): Props/C02Payload.lean imports the C01 payload
